@@ -35,6 +35,11 @@ ASSUMPTIONS = [
     "_sequence_encoding, _torch_*, _numpy_rng, _python_logger, *.is_path, *.torch_save, *.np_scalar), and no object carrying attribute pairs that "
     "the duck-typed dispatch reads as scheduler / logger / NumPy scalar (step+get_last_lr, log+info, add_scalar+add_image, dtype+item)",
     "all-numeric sequences (and sets): integers within int64",
+    "names / dict keys additionally exclude zarr's own reserved spellings: 'zarr.json', '.', '..' and the backslash (zarr normalises it to the path separator); "
+    "leading / trailing dots, leading underscores, 'c', '0', '0.0', 200-250 character names and names differing only by case are generated",
+    "classes: plain, attrs-defined (with and without slots, __attrs_post_init__) and @dataclass AutoSerialize classes; __slots__-only / dataclass(slots=True) classes are not "
+    "generated (the serializer reads __dict__ and silently stores nothing for them)",
+    "save() / load() also run under torch.no_grad(), torch.inference_mode(), set_grad_enabled(False) and set_default_dtype(float64): the expected result is the same",
     "optimizers / schedulers (not among the property's value kinds) are generated as attributes only; modules, tensors, loggers and rng generators anywhere",
     "arrays: native byte order, dtypes zarr 3 stores (no object / longdouble); Python complex / bytes / frozenset (dill fallback kinds) are not generated",
     "NumPy scalars and all-numeric sequences are compared by value, rng generators / loggers / summary writers by kind only, NaN == NaN",
@@ -146,10 +151,52 @@ def _target(base, store, pathkind, name):
     return Path(p) if pathkind == "Path" else p
 
 
+CTX_MODES = ["none", "save_no_grad", "load_no_grad", "both_no_grad", "save_inference", "load_inference", "both_inference", "grad_disabled", "default_float64"]
+
+
+class _ProcessState:
+    """process-global torch state under which save() / load() run for this case; always restored."""
+
+    def __init__(self, mode, side):
+        self.mode, self.side = mode, side
+        self.cm = None
+        self.prev = None
+
+    def __enter__(self):
+        import torch
+
+        m = self.mode
+        if m == "default_float64":
+            self.prev = torch.get_default_dtype()
+            torch.set_default_dtype(torch.float64)
+        elif m == "grad_disabled":
+            self.prev = torch.is_grad_enabled()
+            torch.set_grad_enabled(False)
+        elif m.endswith("no_grad") and (m.startswith("both") or m.startswith(self.side)):
+            self.cm = torch.no_grad()
+            self.cm.__enter__()
+        elif m.endswith("inference") and (m.startswith("both") or m.startswith(self.side)):
+            self.cm = torch.inference_mode()
+            self.cm.__enter__()
+        return self
+
+    def __exit__(self, *exc):
+        import torch
+
+        if self.cm is not None:
+            self.cm.__exit__(*exc)
+        if self.mode == "default_float64":
+            torch.set_default_dtype(self.prev)
+        elif self.mode == "grad_disabled":
+            torch.set_grad_enabled(self.prev)
+        return False
+
+
 def _save(ctx, obj, path, store, mode, comp, fields, phase):
     st = {"zip": "zip", "dir": "dir", "auto_zip": "auto", "auto_dir": "auto"}[store]
     try:
-        obj.save(path, mode=mode, store=st, compression_level=comp)
+        with _ProcessState(ctx.state.get("ctxmode", "none"), "save"):
+            obj.save(path, mode=mode, store=st, compression_level=comp)
         return True
     except Exception as e:  # noqa: BLE001
         ctx.check(False, "roundtrip_raises", "%s raised %s: %s" % (phase, type(e).__name__, str(e)[:300]), phase=phase, exc_type=type(e).__name__, **fields)
@@ -158,7 +205,8 @@ def _save(ctx, obj, path, store, mode, comp, fields, phase):
 
 def _load(ctx, path, fields, phase):
     try:
-        return True, ctx.state["load"](path)
+        with _ProcessState(ctx.state.get("ctxmode", "none"), "load"):
+            return True, ctx.state["load"](path)
     except Exception as e:  # noqa: BLE001
         ctx.check(False, "roundtrip_raises", "%s raised %s: %s" % (phase, type(e).__name__, str(e)[:300]), phase=phase, exc_type=type(e).__name__, **fields)
         return False, None
@@ -243,7 +291,8 @@ def _count_attrs(ctx, v, depth=0):
     if depth > 12:
         return 0
     if dq.is_autoserialize(v):
-        return len(vars(v)) + sum(_count_attrs(ctx, x, depth + 1) for x in vars(v).values())
+        av = dq.attrs_of(v)
+        return len(av) + sum(_count_attrs(ctx, x, depth + 1) for x in av.values())
     if isinstance(v, (list, tuple, set)):
         return sum(_count_attrs(ctx, x, depth + 1) for x in v)
     if isinstance(v, dict):
@@ -270,7 +319,9 @@ def _name_case(ctx, spec, rng):
         "object": sg.make_leaf(rng),
     }.get(c)
     if c == "dictkey":
-        root.d = {nm: 1, nm + "2": sg.make_array(rng, "float32", "1d"), nm + "3": [1, "a"], nm + "4": sg.make_leaf(rng), nm + "5": Path("z")}
+        root.d = {nm: sg.make_array(rng, "float32", "1d"), nm + "2": 1, nm + "3": [1, "a"], nm + "4": sg.make_leaf(rng), nm + "5": Path("z"), nm + "6": sg.make_tensor(rng, "float32")}
+        if nm.lower() != nm.upper():
+            root.d[nm.swapcase()] = sg.make_array(rng, "int8", "1d")  # a key differing only by case
     elif c == "object":
         setattr(root, nm, val)
         setattr(val, nm, "inner value under the same name")
@@ -583,7 +634,25 @@ def _run_after_error(spec, idx, ctx):
     ctx.observe(kind="after_error", store=store, where=where, bad=badk, repair=repair)
 
 
+def _torchy(spec):
+    k = spec.get("vkind", "")
+    return spec["kind"] in ("random", "config", "library") or k.split(":")[0] in ("tensor", "module", "optimizer", "scheduler") or "tensor" in k or k in ("dict:nested", "dict:dot_keys", "dict:zarrish_keys")
+
+
 def run_case(spec, idx, ctx):
+    # save() / load() of this case run under one of the process-global torch states (expectations are the same under all of them)
+    mode = CTX_MODES[idx % len(CTX_MODES)] if (_torchy(spec) or idx % 4 == 0) else "none"
+    ctx.state["ctxmode"] = mode
+    ctx.count("process_state:" + mode)
+    try:
+        _run_case(spec, idx, ctx)
+    finally:
+        ctx.state["ctxmode"] = "none"
+    if ctx._case is not None:
+        ctx.observe(process_state=mode)
+
+
+def _run_case(spec, idx, ctx):
     sg = ctx.state["sg"]
     rng = ctx.rng(idx)
     kind = spec["kind"]
